@@ -46,3 +46,7 @@ package main
 //@   ensures [failure-is-502-with-the-sandbox-body] delta(SandboxInvokeDoneFailed) == 1 ==> ghost(httpStatus) == 502 && ghost(httpLastContent) == contentOf(proxyOf(lastarg(SandboxInvoke, 1)).Body) && ghost(httpWrites) == old(ghost(httpWrites)) + 1
 //@   ensures [timeout-is-answered-once-with-the-timeout-message-only] delta(SandboxInvokeTimedOut) == 1 ==> ghost(httpWrites) == old(ghost(httpWrites)) + 1 && ghost(httpLastWriter) == ref(w) && ghost(httpWriteHeaders) == old(ghost(httpWriteHeaders))
 //@   ensures [one-body-per-request] ghost(httpWrites) <= old(ghost(httpWrites)) + 1
+
+// C10: the front end's handler runs once per HTTP request, concurrently: the package variable that says whether the one-off
+// initialisation was done is read and written under a package-level mutex (two callers at cold start must not both run Init)
+//@ globallock initDone by initMutex
